@@ -374,10 +374,11 @@ func (c07) Execute(sc core.Script, keep bool) *core.Result {
 		var err error
 		p, txt, _, _ := core.Catch(func() {
 			n2, c2, a2 := cloneSlack(nonce), cloneSlack(ct), cloneSlack(aad)
-			if d.Dst.Mode == "inplace" {
-				scratch = slackBuf(len(c2), len(c2)+d.Dst.Spare)
-				copy(scratch, c2)
-				outPt, err = a.Open(scratch[:0], n2, scratch, a2)
+			if strings.HasPrefix(d.Dst.Mode, "inplace") {
+				var d0, in0 []byte
+				scratch, d0, in0 = inplaceBuf(d.Dst, c2)
+				prefix = append([]byte{}, d0...)
+				outPt, err = a.Open(d0, n2, in0, a2)
 			} else {
 				dst = mkDst(d.Dst)
 				prefix = append([]byte{}, dst...)
@@ -413,7 +414,7 @@ func (c07) Execute(sc core.Script, keep bool) *core.Result {
 		if wouldBe != nil {
 			res.Probes["dst-leak-checked"]++
 			var visible []byte
-			if d.Dst.Mode == "inplace" {
+			if strings.HasPrefix(d.Dst.Mode, "inplace") {
 				visible = scratch[:cap(scratch)]
 			} else if dst != nil {
 				visible = dst[:cap(dst)]
